@@ -16,7 +16,7 @@ from harness import lib
 from harness.lib import cb, cl, cn, cs, cz
 
 PROP = "C04"
-IMPORTS = "Base Hints HintsGen"
+IMPORTS = "Base Hints HintsGen HintsConn"
 FUEL = 40
 RULE = ("hint pairs grown from the grammar (classes/subclasses, None, X|Y, typing.Union/Optional, Literal, "
         "Annotated, list/set/dict/tuple/type/Callable generics, depth<=3) + (value, hint) pairs; a case is "
@@ -335,6 +335,28 @@ def generate(ctx):
             continue
         seen.add(key)
         cases.append({"kind": "cmp", "h": h, "o": o})
+    # channel level: what the library accepts as a data connection / as a macro value link
+    n_ch = ctx.n(500, 4000)
+    made = 0
+    while made < n_ch:
+        h = canon(gen_hint(rng, rng.choice([1, 2, 2, 3])))
+        if h is None:
+            continue
+        o = canon(mutate(rng, h)) if rng.random() < 0.7 else canon(gen_hint(rng, rng.choice([1, 2])))
+        if o is None:
+            continue
+        if rng.random() < 0.3:
+            h, o = o, h
+        kind = rng.choice(["connect", "link"])
+        case = {"kind": kind, "h": h if rng.random() < 0.9 else None, "o": o if rng.random() < 0.9 else None,
+                "s_src": rng.random() < 0.6, "s_dst": rng.random() < 0.75}
+        key = (kind, repr(case))
+        if key in seen:
+            continue
+        seen.add(key)
+        cases.append(case)
+        made += 1
+    n_cmp += n_ch
     while len(cases) < n_cmp + n_val:
         h = canon(gen_hint(rng, rng.choice([0, 1, 2, 2, 3])))
         if h is None:
@@ -361,9 +383,45 @@ def _tolist(x):
     return [_tolist(e) for e in x] if isinstance(x, (list, tuple)) else x
 
 
+class _Owner:
+    label = "o"
+    full_label = "/o"
+
+    def data_input_locked(self):
+        return False
+
+
+def run_channels(case):
+    from pyiron_workflow.channels import ChannelConnectionError, InputData, OutputData
+    own = _Owner()
+    th = lambda h: None if h is None else build(h)
+    try:
+        if case["kind"] == "connect":
+            out = OutputData("y", own, type_hint=th(case["h"]), strict_hints=case["s_src"])
+            inp = InputData("x", own, type_hint=th(case["o"]), strict_hints=case["s_dst"])
+            try:
+                inp.connect(out)
+                return out in inp.connections
+            except ChannelConnectionError:
+                return False
+        snd = InputData("a", own, type_hint=th(case["h"]), strict_hints=case["s_src"])
+        rcv = InputData("b", own, type_hint=th(case["o"]), strict_hints=case["s_dst"])
+        try:
+            snd.value_receiver = rcv
+            return snd.value_receiver is rcv
+        except ValueError:
+            return False
+    except RecursionError:
+        return "RecursionError"
+    except Exception as e:
+        return "EXC:" + type(e).__name__
+
+
 def run_impl(case):
     from pyiron_workflow.type_hinting import type_hint_is_as_or_more_specific_than as ms, valid_value
     case = _tolist(case)
+    if case["kind"] in ("connect", "link"):
+        return run_channels(case)
     if case["kind"] == "cmp":
         try:
             r = ms(build(case["h"]), build(case["o"]))
@@ -392,8 +450,15 @@ _is_callable = lambda h: h[0] == "gen" and h[1] == "CallableC"
 _is_float = lambda h: h[0] == "cls" and h[1] == "Float"
 
 
+def _dchan(h, strict):
+    return f"{{| d_hint := {'None' if h is None else '(Some ' + hint_coq(h) + ')'}; d_strict := {cb(strict)} |}}"
+
+
 def model_term(case):
     case = _tolist(case)
+    if case["kind"] in ("connect", "link"):
+        f = "valid_connection" if case["kind"] == "connect" else "receiver_ok"
+        return f"obs_ob ({f} {cn(FUEL)} {_dchan(case['h'], case['s_src'])} {_dchan(case['o'], case['s_dst'])})"
     if case["kind"] == "valid" and case["v"][0] == "cls" and _mentions(case["h"], _is_callable):
         return None   # classes as callables: typeguard inspects constructor signatures, outside the model
     if case["kind"] == "valid" and _mentions(case["h"], _is_float):
@@ -416,6 +481,17 @@ def _has_empty_tuple(h):
 def oracle(case, obs):
     from pyiron_workflow.type_hinting import valid_value
     case = _tolist(case)
+    if case["kind"] in ("connect", "link"):
+        if not isinstance(obs, bool):
+            return f"crash: forming a {case['kind']} raised {obs}"
+        if obs and case["h"] is not None and case["o"] is not None and case["s_dst"]:
+            hh, oo = build(case["h"]), build(case["o"])
+            for v in POOL:
+                pv = build_val(v)
+                if valid_value(pv, hh) and not valid_value(pv, oo):
+                    return (f"unsound-{case['kind']}: accepted between two hinted channels with a strict receiving side, but value "
+                            f"{v} is admitted by the source hint and not by the target hint")
+        return None
     if case["kind"] != "cmp":
         return None
     if not isinstance(obs, bool):
@@ -433,6 +509,8 @@ def oracle(case, obs):
 
 def known(case, obs, verdict):
     case = _tolist(case)
+    if case.get("h") is None or case.get("o") is None:
+        return None
     if verdict.startswith("unsound") and _has_empty_tuple(case["o"]):
         return "S3-empty-tuple-target"
     if verdict.startswith("unsound") and (_mentions(case["o"], _is_float) or _mentions(case["h"], _is_float)):
@@ -441,11 +519,13 @@ def known(case, obs, verdict):
 
 
 def nontrivial(case, obs):
+    if case["kind"] in ("connect", "link"):
+        return case["h"] is not None and case["o"] is not None and (case["h"][0] != "cls" or case["o"][0] != "cls")
     return case["h"][0] != "cls" or (case["kind"] == "cmp" and case["o"][0] != "cls")
 
 
 def key(case):
-    return [case["kind"], case["h"], case.get("o"), case.get("v")]
+    return [case["kind"], case["h"], case.get("o"), case.get("v"), case.get("s_src"), case.get("s_dst")]
 
 
 def shrink_candidates(case):
@@ -491,13 +571,15 @@ def tuple_ast(h):
 
 
 def distribution(results):
-    d = {"cmp": 0, "valid": 0, "cmp_true": 0, "cmp_false": 0, "cmp_crash": 0, "valid_true": 0}
+    d = {"cmp": 0, "valid": 0, "connect": 0, "link": 0, "channel_accepted": 0, "cmp_true": 0, "cmp_false": 0, "cmp_crash": 0, "valid_true": 0}
     kinds = {}
     for c, enc, v, o in results:
         d[c["kind"]] += 1
         if c["kind"] == "cmp":
             d["cmp_true" if o is True else "cmp_false" if o is False else "cmp_crash"] += 1
             kinds[c["h"][0]] = kinds.get(c["h"][0], 0) + 1
+        elif c["kind"] in ("connect", "link"):
+            d["channel_accepted"] += o is True
         elif o is True:
             d["valid_true"] += 1
     d["hint_kinds"] = kinds
